@@ -346,6 +346,14 @@ def explore18(ctx, cases, harness, scheds, iters, out_root, trace_cap, **kw):
     return res, tdirs
 
 
+def linearisation_results(case, harness, seed, n=200):
+    """the results of n single-threaded runs of the case, each with the requests of every par
+    group in another pseudo-random order (each handle's own order kept)"""
+    cid = case.split()[1]
+    out, _ = pe.run_harness18([case], harness, 0, "pct", seed, shards=1, trace_cap=0, ref_orders=n)
+    return [pe.parse_results(r) for r in out.get(cid, {}).get("refo", [])]
+
+
 def linearisation_known(case, harness, finding, seed, n=200):
     """Is the differing value of `finding` (a later-revision request) also returned by a
     SINGLE-THREADED run of the same history in which the requests of the par groups are made in
@@ -371,9 +379,16 @@ def replay18(ctx, rp, std=False):
     cid = case.split()[1]
     out, hung = pe.run_harness18([case], harness, rp.get("iters_to_run", 100), rp.get("scheduler", "pct"),
                                  rp.get("harness_seed", rp.get("seed", 1)), shards=1, trace_cap=0)
-    fs, known = pe.check_case18(cid, spec[cid], out, accept=tuple(rp.get("accept", ("p8",))))
-    fs = [f for f in fs if f["kind"] != "values" or f["detail"]["revision"] == 0 or rp.get("os_threads")
-          or not linearisation_known(case, harness, f, rp.get("harness_seed", 1))]
+    if std and not rp.get("accept"):
+        # C18: a case in which something unwound under shuttle, re-examined on OS threads
+        lin = linearisation_results(case, harness, rp.get("harness_seed", 1), n=300)
+        fs, nk = pe.check_case18_os(cid, spec[cid], out, lambda key, g: any(r.get(tuple(key)) == g for r in lin))
+        known = [None] * nk
+    else:
+        fs, known = pe.check_case18(cid, spec[cid], out, accept=tuple(rp.get("accept", ("p8",))), shuttle=not std)
+        fs = [f for f in fs if f["kind"] != "unwound"]
+        fs = [f for f in fs if f["kind"] != "values" or f["detail"]["revision"] == 0 or rp.get("os_threads")
+              or not linearisation_known(case, harness, f, rp.get("harness_seed", 1))]
     print(f"case {cid}: {len(out.get(cid, {}).get('iters', []))} schedules re-run, findings: {len(fs)}, "
           f"differences of the known single-threaded classes: {len(known)}")
     for f in fs[:5]:
